@@ -350,6 +350,7 @@ def finish(ctx: Ctx, lean_info: dict, rule: str, extra_assumptions=(), checker_c
         "out_of_domain_drift": ctx.drift[:10],
         "generated": lean_info.get("generated"),
         "generated_config": lean_info.get("generated_config"),
+        "leanchecker": lean_info.get("leanchecker"),
         "generated_broken": lean_info.get("generated_broken"),
         "known_findings": ctx.known_lines,
         "notes": ctx.notes,
